@@ -1,4 +1,5 @@
 --------------------------- MODULE MC_Determinism ---------------------------
 EXTENDS Determinism, Json
 EmitInv == PrintT(<<"PROJ", ToJson([kinds |-> kinds, style |-> style])>>)
+EmitWide == PrintT(<<"WIDE", ToJson([shape |-> shape, width |-> width])>>)
 =============================================================================
